@@ -49,8 +49,9 @@
  *             to the two facts above (AXIOM).  Real multiplication is one such table: the proof covers it.
  *             The lemma is proved over the mathematical integers by job c17.lemma.mono (z3).
  *   VMUL == 0 (jobs c17.aux.s*, bounded cross-check): the unrewritten text with REAL multiplication for a few constant
- *             stride tuples; the table is computed (i*const) and every AXIOM is an assertion, i.e. the axioms are
- *             checked against machine arithmetic there.  These jobs also see mutations of the multiplication sites.
+ *             stride tuples; the table is computed (i*const).  These jobs also see mutations of the multiplication
+ *             sites.  Jobs c17.axioms.*: every AXIOM is an assertion over the computed table, i.e. the axioms are
+ *             checked against machine arithmetic for three constant tuples.
  */
 #include "verif_common.h"
 #include <limits.h>
@@ -254,7 +255,11 @@ static long table_entry(void) { long p = nondet_long(); __CPROVER_assume(0 <= p 
 #define AXIOM(x, txt) __CPROVER_assume(x)
 #else
 #define TBL(i, s) PROD(i, s)
-#define AXIOM(x, txt) __CPROVER_assume(x)      /* true of the computed products (lemma); stated so that the SAT solver need not rediscover it */
+#ifdef AXIOM_ASSERT   /* job c17.axioms.*: every axiom is checked against the machine products */
+#define AXIOM(x, txt) { __CPROVER_assert(x, "C17 axiom holds for machine multiplication: " txt); __CPROVER_assume(x); }
+#else                 /* true of the computed products; stated so that the SAT solver need not rediscover it */
+#define AXIOM(x, txt) __CPROVER_assume(x)
+#endif
 #endif
 /* the two facts about products i*s, j*s of one stride s (job c17.lemma.mono): congruence and strict monotonicity with gap s */
 #define REL(i, pi, j, pj, s) \
@@ -274,7 +279,8 @@ static size_t pick_stride(int k, _Bool zero_ok, _Bool cells) {
   /* SAMPLE selects a tuple of constant strides: (ids, funcs, args, results, attrs) */
   (void)zero_ok; (void)cells;
   return SAMPLE == 0 ? (k == X_IDS ? 8 : k == X_FUNCS ? 0 : k == X_ARGS ? 1 : k == X_RES ? 8 : 0)
-                     : (k == X_IDS ? 16 : k == X_FUNCS ? 8 : k == X_ARGS ? 4 : k == X_RES ? 32 : 2);
+       : SAMPLE == 1 ? (k == X_IDS ? 16 : k == X_FUNCS ? 8 : k == X_ARGS ? 4 : k == X_RES ? 32 : 2)
+       :               (k == X_IDS ? 24 : k == X_FUNCS ? 16 : k == X_ARGS ? 40 : k == X_RES ? 32 : 48);
 #endif
 }
 /* an item number: any long (VMUL); below 2^16, zero-extended, in the bounded cross-check (keeps the real multipliers small) */
@@ -382,6 +388,12 @@ void h_aux(void) {
   VERIF_CANARY();
 }
 
+/* the axioms of the product table against machine arithmetic (VMUL == 0, AXIOM_ASSERT) */
+void h_axioms(void) {
+  setup();
+  VERIF_CANARY();
+}
+
 void h_various(void) {
   setup();
   __CPROVER_assume(g_ha == 0);
@@ -404,5 +416,9 @@ void h_lemma_mono(void) {
   __CPROVER_integer x = nondet_integer(), y = nondet_integer(), st = nondet_integer();
   __CPROVER_assume(0 <= x && x < y && st >= 0);
   __CPROVER_assert(x * st + st <= y * st, "C17 lemma: x < y and s >= 0 imply x*s + s <= y*s (slots of distinct items are disjoint)");
+  __CPROVER_integer k = nondet_integer();
+  __CPROVER_assume(k >= 0);
+  __CPROVER_assert(x * (8 * k) == 8 * (x * k), "C17 lemma: a multiple of 8 times anything is a multiple of 8 (slots stay aligned)");
+  __CPROVER_assert(x * 0 == 0 && 0 * st == 0, "C17 lemma: products with 0");
   VERIF_CANARY();
 }
